@@ -188,12 +188,45 @@ def clause4(P, res):
                       where=f"{w.file}:{w.line}", obligations=3)
 
 
+def clause5(P, res):
+    rid = "C15-5"
+    res.rule(rid, "one stripe function: every index into the in-flight load table (`pending_loads[..]`) — the miss path, the refresh trigger, and the loader task's marker "
+                  "removal — is computed by the same operations on the key's hash; a site that derives its stripe differently looks for (and removes) the marker in a "
+                  "stripe the others never use, so overlapping misses start second loads and markers are never cleared")
+    sites = []
+    for b in cl.cache_bodies(P):
+        for e in b.events:
+            if e.kind == "assign" and e.data["r"]["k"] == "bin" and e.data["r"]["op"] == "Lt":
+                lim = b.def_event_of_operand(e.data["r"]["b"])
+                if lim is None or lim.kind != "assign" or lim.data["r"]["k"] != "un" or lim.data["r"]["op"] != "PtrMetadata":
+                    continue
+                pl = mir.op_place(lim.data["r"]["a"])
+                if pl is None or "pending_loads" not in b.path_of_place(pl):
+                    continue
+                evs, _, _ = mir.operand_sources(b, e.data["r"]["a"])
+                sig = tuple(sorted({x.data["r"]["op"] for x in evs if x.kind == "assign" and x.data["r"]["k"] == "bin"} | {x.method for x in evs if x.kind == "call"}))
+                sites.append((b, e, sig))
+    if len(sites) < 5:
+        res.violated(rid, "stripe-index-sites", f"expected >= 5 indexings of pending_loads, found {len(sites)}")
+        return
+    from collections import Counter
+    major = Counter(s for _, _, s in sites).most_common(1)[0][0]
+    for b, e, sig in sites:
+        key = f"{b.id}:pending_loads[]"
+        if sig == major:
+            res.holds(rid, key, f"stripe = {'/'.join(major)}", where=e.loc)
+        else:
+            res.violated(rid, key, f"the stripe index at {e.loc} is computed by {sig} while the other {sum(1 for x in sites if x[2] == major)} sites use {major}: this site and "
+                         "the others disagree on which stripe holds a key's marker", where=e.loc)
+
+
 def run(P, ctx):
     res = Result("C15")
     res.extra["explanation"] = "Critical-section, ordering and wait/complete shapes of the cache loader's single-flight protocol."
     clause1(P, res)
     clause3(P, res)
     clause4(P, res)
+    clause5(P, res)
     res.notes.append("DESIGN C15-2 (spawn after unlocking) dropped: trigger_background_load spawns while holding the stripe guard and that is not a deadlock "
                      "(spawn does not block on the marker); it is not a necessary condition of the property.")
     return res
